@@ -133,6 +133,112 @@ class key_address_native:
         return addr == b58.check_encode(o.get('prefix', b'\x00') + bip32.hash160(data))
 
 
+def _hd_address_models(reg):
+    """Key.address(key, compressed, prefix, script_type, encoding) on an abstract key: an uninterpreted function of the key and of the four
+    arguments as they ARRIVE there (None / True / False kept apart), so HDKey.address is checked for which arguments it passes on"""
+    from pyvc import models
+    from pyvc.values import Rec, SBool
+    from pyvc.ctx import Unsupported
+
+    def enc_arg(ip, a):
+        if a is None:
+            return [0, b'']
+        if a is True or a is False:
+            return [1 if a else 2, b'']
+        if isinstance(a, SBool):
+            return [models.ops.ite_int(ip.ctx, a, 1, 2) if hasattr(models.ops, 'ite_int') else z3.If(a.t, z3.IntVal(1), z3.IntVal(2)), b'']
+        return [3, a]
+
+    def m_address(ip, args, kwargs):
+        key = args[0]
+        if not (isinstance(key, Rec) and 'ghost_id' in key.attrs):
+            return NotImplemented
+        names = ['compressed', 'prefix', 'script_type', 'encoding']
+        vals = list(args[1:]) + [None] * 4
+        got = {n: (kwargs[n] if n in kwargs else vals[i]) for i, n in enumerate(names)}
+        flat = [key.attrs['ghost_id']]
+        for n in names:
+            flat += enc_arg(ip, got[n])
+        return models.uf_bytes(ip.ctx, 'KeyAddress', flat, 20)
+
+    fn = Key.address
+
+    def wrapped(ip, args, kwargs):
+        r = m_address(ip, args, kwargs)
+        if r is NotImplemented:
+            return ip.call_pyfunc_body(fn, args, kwargs)
+        return r
+    reg.models[fn] = wrapped
+
+
+def _hd_address_case(compressed, script_type, encoding):
+    name = 'args-%s-%s-%s' % (compressed, script_type, encoding)
+
+    def ensures(self, result):
+        c = self.compressed if compressed is None else compressed
+        st = self.script_type if script_type is None else script_type
+        en = self.encoding if encoding is None else encoding
+        return result == Key.address(self, c, None, st, en)
+
+    d = {'params': {'self': RecordOf(HDKey, compressed=Bool, script_type=Str, encoding=Str, ghost_id=Int(0, 10 ** 6))},
+         'kwargs': {'compressed': compressed, 'prefix': None, 'script_type': script_type, 'encoding': encoding},
+         'ensures': ensures, 'native_skip': True, 'local_models': _hd_address_models,
+         '__doc__': 'HDKey.address(compressed=%r, script_type=%r, encoding=%r): Key.address of the same key with every unspecified (None) argument replaced '
+                    'by the key\'s own setting and every specified one - False included - passed on as given (Key.address abstract)' % (compressed, script_type, encoding)}
+    return contract('bitcoinlib.keys.HDKey.address', case=name, props=('C04',))(type('hd_address_' + name.replace('-', '_'), (), d))
+
+
+HD_ADDRESS_CASES = [_hd_address_case(c, st, en)._contract.key for c in (None, True, False) for st in (None, 'p2pkh') for en in (None, 'base58')]
+
+
+@contract('bitcoinlib.keys.HDKey.address', case='any-history-native', props=('C04',))
+class hdkey_address_native:
+    """HDKey.address / address_uncompressed (the override that fills unspecified arguments from the key's own settings, then Key.address): the
+    standard encoding of the key's hash for the requested compression, script type and encoding - an explicit compressed=False included, private
+    and public HD keys, legacy and segwit keys, also after an earlier address request (native evaluation; independent reference encoders)"""
+    params = {'secret': Int(1, N - 1), 'choice': Int(0, 10 ** 6), 'earlier': Int(0, 10 ** 6), 'shape': Int(0, 10 ** 6)}
+    native_only = True
+    bounded = 'random keys; HD key legacy / segwit / p2sh-segwit, private or public; one earlier address() call with other arguments on the same object'
+
+    def build(secret, choice, earlier, shape):
+        early = [None, dict(), dict(compressed=True, script_type='p2pkh', encoding='base58'), dict(script_type='p2sh_p2wpkh', encoding='base58')]
+        opts = [dict(compressed=True, script_type='p2pkh', encoding='base58'), dict(compressed=False, script_type='p2pkh', encoding='base58'),
+                dict(compressed=True, encoding='bech32', script_type='p2wpkh'), dict(compressed=True, script_type='p2sh_p2wpkh', encoding='base58'),
+                dict(uncompressed_method=True, script_type='p2pkh', encoding='base58'), dict(compressed=None, script_type='p2pkh', encoding='base58')]
+        wts = ['legacy', 'segwit', 'p2sh-segwit']
+
+        def run():
+            k = HDKey(bip32.ser256(secret), chain=hashlib.sha256(bip32.ser256(secret)).digest(), network='bitcoin', witness_type=wts[shape % 3])
+            if (shape // 3) % 2:
+                k = k.public()
+            e = early[earlier % len(early)]
+            if e is not None:
+                try:
+                    k.address(**e)
+                except Exception:
+                    pass
+            o = dict(opts[choice % len(opts)])
+            if o.pop('uncompressed_method', False):
+                addr = k.address_uncompressed(**o)
+                o['compressed'] = False
+            else:
+                addr = k.address(**o)
+            return addr, o, k.public_compressed_byte, k.public_uncompressed_byte
+        return run, [], {}
+
+    def ensures(secret, choice, earlier, shape, result):
+        addr, o, pc, pu = result
+        pt = ec.mul_g(secret)
+        if pc != bip32.ser_p(pt) or pu != b'\x04' + bip32.ser256(pt[0]) + bip32.ser256(pt[1]):
+            return False
+        data = pu if o.get('compressed') is False else pc
+        if o.get('encoding') == 'bech32':
+            return addr == b32.encode('bc', 0, list(bip32.hash160(data)))
+        if o.get('script_type') == 'p2sh_p2wpkh':
+            return addr == b58.check_encode(b'\x05' + bip32.hash160(b'\x00\x14' + bip32.hash160(data)))
+        return addr == b58.check_encode(b'\x00' + bip32.hash160(data))
+
+
 @contract('bitcoinlib.keys.Key.public_uncompressed_hex', case='decompress', props=('C04', 'C12'))
 class decompress:
     """a key imported in compressed form exports the uncompressed form 04 || x || y with y the square root of x^3+7 whose parity
